@@ -158,6 +158,14 @@ def check_sul_fields(rep, ix, pm):
     for w in want:
         rep.ob('R-C01-SUL', f'{M}:StorageUnitLabel.__init__', f'field {w[0]} is bytes [{w[1]}:{w[2]}]', w in cuts,
                found=str([c for c in cuts if c[0] == w[0]]), required=str(w), node=f, module=pm)
+    # the two numeric fields are the digits the field's pattern captured, converted with int() - nothing is stripped or re-cut
+    for fld in ('storage_unit_sequence_number', 'maximum_record_length'):
+        vals = [n.value for n in walk_no_nested(f) if isinstance(n, (ast.Assign, ast.AnnAssign)) and n.value is not None
+                and any(isinstance(t, ast.Attribute) and t.attr == fld for t in (n.targets if isinstance(n, ast.Assign) else [n.target]))]
+        ok = len(vals) == 1 and isinstance(vals[0], ast.Call) and attr_chain(vals[0].func) == 'int' and len(vals[0].args) == 1 \
+            and isinstance(vals[0].args[0], ast.Call) and (attr_chain(vals[0].args[0].func) or '').endswith('.group') \
+            and [ix.fold(M, a) for a in vals[0].args[0].args] == [1]
+        rep.ob('R-C01-SUL', f'{M}:StorageUnitLabel.__init__', f'{fld} = int(<match>.group(1))', ok, found=str([ast.unparse(v) for v in vals]), required='the captured digits', node=f, module=pm)
     size = ix.fold_class_attr(M, 'StorageUnitLabel', 'SIZE')
     rep.ob('R-C01-SUL', f'{M}:StorageUnitLabel', f'SIZE = {size}', size == 80, found=str(size), required='80', module=pm)
     g = ix.get_func(M, '_create_bytes')
